@@ -44,6 +44,7 @@ func c19Letters() []c19Letter {
 		{"Query(err)", pgproto.Query("1:!boom"), "TEZ", []string{"parse", "stmt"}},
 		{"Query(3 statements)", pgproto.Query("1:r,c=A|1:r,c=B|0:c=C"), "TDCTDCCZ", []string{"parse", "stmt", "stmt", "stmt"}},
 		{"Parse+Bind+Execute+Sync", pgproto.Cat(pgproto.Parse("", progRows), pgproto.Bind("", "", nil, nil, nil), pgproto.Execute("", 0), pgproto.Sync()), "12DCZ", []string{"parse", "stmt"}},
+		{"Parse+Bind+Execute+Execute+Sync", pgproto.Cat(pgproto.Parse("s", progRows), pgproto.Bind("p", "s", nil, nil, nil), pgproto.Execute("p", 0), pgproto.Execute("p", 0), pgproto.Sync()), "12DCDCZ", []string{"parse", "stmt", "stmt"}},
 		{"Bind(unknown statement), no Sync", pgproto.Bind("", "nope", nil, nil, nil), "E", nil},
 		{"Terminate", pgproto.Terminate(), "", nil},
 		{"EOF", nil, "", nil},
@@ -60,6 +61,8 @@ type c19State struct {
 	hookCalls int
 	ctxs      []context.Context
 	cbs       []string
+	cur       string            // the letter being delivered (message-by-message mode)
+	batchStmt []context.Context // contexts of the statement calls of that letter
 }
 
 func (s *c19State) checkCtx(ctx context.Context, where string) {
@@ -92,6 +95,15 @@ func c19Build(cfg c19Config, st *c19State, rec *script.Rec) (wire.ParseFn, []wir
 		if where == "stmt" {
 			st.cbs = append(st.cbs, "stmt")
 			st.checkCtx(ctx, "statement function")
+			if strings.HasPrefix(st.cur, "Parse+Bind+Execute+Execute") {
+				// two Execute commands in one batch: the first command has ended when the second one runs
+				for _, c := range st.batchStmt {
+					if c.Err() == nil {
+						st.problems = append(st.problems, "the context of an earlier Execute command of the same batch is still live while a later command runs (it is cancelled when that command ends, not at the Sync)")
+					}
+				}
+				st.batchStmt = append(st.batchStmt, ctx)
+			}
 		}
 	}
 	inner := rec.ParseFn()
@@ -243,6 +255,7 @@ func c19Run(cfg c19Config, hist []c19Letter, oneSegment bool) explore.Result {
 	terminated := false
 	hookWant := 0
 	deliver := func(l c19Letter) ([]byte, memnet.Status) {
+		st.cur, st.batchStmt = l.Name, nil
 		if l.Name == "EOF" {
 			return one.End()
 		}
@@ -385,7 +398,7 @@ func c19Expect(l c19Letter, skipping *bool) (string, []string) {
 		}
 		*skipping = true
 		return "E", nil
-	case l.Name == "Parse+Bind+Execute+Sync":
+	case strings.HasPrefix(l.Name, "Parse+Bind+Execute"):
 		if *skipping {
 			*skipping = false
 			return "Z", nil // only the Sync is answered
